@@ -674,24 +674,15 @@ ExternalCommit(q, p, resync) ==
        THEN \* the joiner's identity is already in the tree: its new leaf is a duplicate
             /\ UNCHANGED <<grp, commits, winner, repo>>
             /\ Record("ExternalCommit", q, args, "err:rule:add-duplicate", [x |-> 0])
-       ELSE IF "F14" \in Deviations /\ store[q].epochs # <<>> /\ store[q].epochs[Len(store[q].epochs)].epoch + 1 # g.epoch
-       THEN \* named deviation F14: the joiner's storage still holds epochs of a former membership; queuing the
-            \* epoch it joins from does not continue them and the builder fails
-            /\ UNCHANGED <<grp, commits, winner, repo>>
-            /\ Record("ExternalCommit", q, args, "err:epoch:F14", [x |-> 0])
        ELSE /\ commits' = Append(commits, c)
             /\ winner' = [winner EXCEPT ![g.epoch] = n]
             /\ grp' = [grp EXCEPT ![q] = [st |-> "member", epoch |-> g.epoch + 1, ks |-> n, leaf |-> l,
                                           tree |-> tree1, priv |-> newPriv,
                                           cache |-> {}, pend |-> 0, pendUpd |-> {}, seenC |-> {}, sendGen |-> 0, recv |-> <<>>, hsSend |-> 0, hsRecv |-> <<>>,
                                           ext |-> g.ext, frozen |-> FALSE]]
-            \* the builder first constructs a group object for the epoch it joins from (with empty epoch secrets)
-            \* and then applies its own commit to it like any member: the epoch that is "left" is queued as a
-            \* prior epoch although the joiner never held its secrets (the record cannot decrypt anything)
-            /\ repo' = [repo EXCEPT ![q] = [ins |-> <<[ks |-> NoSecrets, epoch |-> g.epoch, leaf |-> 0, recv |-> <<>>,
-                                                       who |-> [x \in OccupiedLeaves(g.tree) |-> Node(g.tree, 2 * x).who],
-                                                       sig |-> [x \in OccupiedLeaves(g.tree) |-> Node(g.tree, 2 * x).cv]]>>,
-                                            upd |-> <<>>]]
+            \* the builder constructs a placeholder group object for the epoch it joins from (no epoch secrets) and
+            \* applies its own commit to it; the epoch that is "left" is not the joiner's and is not archived (F25)
+            /\ repo' = [repo EXCEPT ![q] = [ins |-> <<>>, upd |-> <<>>]]
             /\ Record("ExternalCommit", q, args, "ok",
                       [commit |-> n, leaf |-> l,
                        recips |-> LET xs == SetToSortedSeq(DOMAIN recips) IN [i \in 1..Len(xs) |-> [node |-> xs[i], keys |-> recips[xs[i]]]],
@@ -1043,14 +1034,26 @@ InWindow(e) == opt.jit = NoJitter \/ e >= (IF obs.epoch >= opt.jit THEN obs.epoc
 \* the observer as external sender (its signing identity is listed in the group's ExternalSenders extension):
 \* ExternalGroup::propose_add / propose_remove; the proposal is a PublicMessage and the observer caches it
 ObsPropose(kind, arg) ==
-    LET j == Len(props) + 1 IN
-    /\ "extsender" \in Features /\ obs.st = "on" /\ kind \in {"add", "rem"}
+    LET j == Len(props) + 1
+        \* kind-specific fields as in the members' Propose* actions
+        extra == CASE kind = "gce" -> [ver |-> j]
+                   [] kind = "custom" -> [ver |-> j]
+                   [] kind = "psk" -> [id |-> arg]
+                   [] OTHER -> [x |-> 0]
+    IN
+    /\ "extsender" \in Features /\ obs.st = "on" /\ kind \in {"add", "rem", "gce", "custom", "psk"}
     /\ (kind = "add" => /\ arg \in 1..Len(kps) /\ ~kps[arg].used /\ kps[arg].owner \notin Members(obs.tree)
                         /\ ~\E k \in 1..Len(props) : props[k].kind = "add" /\ props[k].ks = obs.ks)
     /\ (kind = "rem" => /\ arg \in OccupiedLeaves(obs.tree)
                         /\ ~\E k \in 1..Len(props) : props[k].kind = "rem" /\ props[k].target = arg /\ props[k].ks = obs.ks)
+    \* group context extensions (one by-reference GCE per epoch, as for members), application-defined proposals
+    \* (the rules do not restrict their senders) and external PSKs (the observer needs no PSK value to propose one)
+    /\ (kind = "gce" => /\ "gce" \in Features /\ arg = 0
+                        /\ ~\E k \in 1..Len(props) : props[k].kind = "gce" /\ props[k].ks = obs.ks)
+    /\ (kind = "custom" => "custom" \in Features /\ arg = 0)
+    /\ (kind = "psk" => "psk" \in Features /\ arg \in PskIds)
     /\ NewProp([kind |-> kind, kp |-> IF kind = "add" THEN arg ELSE 0, target |-> IF kind = "rem" THEN arg ELSE 0,
-                by |-> "observer", sender |-> "external", byLeaf |-> NoLeaf, ks |-> obs.ks, epoch |-> obs.epoch, gen |-> 0])
+                by |-> "observer", sender |-> "external", byLeaf |-> NoLeaf, ks |-> obs.ks, epoch |-> obs.epoch, gen |-> 0] @@ extra)
     /\ obs' = [obs EXCEPT !.cache = @ \cup {j}]
     /\ ObsStep("ObsPropose", [kind |-> kind, arg |-> arg, prop |-> j], "ok")
     /\ UNCHANGED <<grp, zomb, kps, commits, winner, opt, repo, store, apps, det>>
@@ -1229,7 +1232,8 @@ SuccNext ==
 ObsNext ==
     \/ \E p \in Parties : ObsJoin(p)
     \/ \E j \in 1..Len(props) : ObsDeliverProposal(j)
-    \/ \E arg \in 0..MaxKps : \E kind \in {"add", "rem"} : ObsPropose(kind, arg)
+    \/ \E arg \in 0..MaxKps : \E kind \in {"add", "rem", "gce", "custom"} : ObsPropose(kind, arg)
+    \/ \E id \in PskIds : ObsPropose("psk", id)
     \/ \E n \in 1..Len(commits) : ObsDeliverCommit(n)
     \/ \E a \in 1..Len(apps) : \E gen \in apps[a].lo..apps[a].hi : ObsDeliverApp(a, gen)
     \/ ObsSnapshotRestore
